@@ -299,6 +299,31 @@ func runBase[T comparable, PT baseElt[T]](t *testing.T, d baseDesc, extra func(c
 	})
 }
 
+// towerRange: conversion from bytes of the tower fields refuses a string in
+// which ANY ONE of the 48-octet coefficients is not below p (p itself, the
+// coefficient plus p where that fits, all ones), whichever position it has in
+// the string and whatever the receiver held before.
+func towerRange(n string, valid []byte, r *lib.Rng, dec func([]byte) error) {
+	nc := len(valid) / 48
+	lim := new(big.Int).Lsh(big.NewInt(1), 384)
+	for j := 0; j < nc; j++ {
+		cur := new(big.Int).SetBytes(valid[48*j : 48*j+48])
+		cands := []*big.Int{new(big.Int).Set(blsP), new(big.Int).Sub(lim, big.NewInt(1)), new(big.Int).Add(blsP, big.NewInt(int64(1+r.Intn(1000))))}
+		if v := new(big.Int).Add(cur, blsP); v.Cmp(lim) < 0 {
+			cands = append(cands, v)
+		}
+		for _, v := range cands {
+			b := lib.Clone(valid)
+			copy(b[48*j:], beBytes(v, 48))
+			lib.Count(n + ":unmarshal:coefficient>=p-presented")
+			if err := dec(b); err == nil {
+				viol("accepted-out-of-range:"+n+".UnmarshalBinary", monTow, "coefficient_index", j, "coefficients", nc, "value", hexBig(v), "encoding", b)
+				return
+			}
+		}
+	}
+}
+
 func fpSet(v *big.Int) (e ff.Fp) { e.SetBytes(v.Bytes()); return }
 func fpGet(e *ff.Fp) *big.Int {
 	b, _ := e.MarshalBinary()
@@ -796,6 +821,9 @@ func TestVerifFFFp2(t *testing.T) {
 			if err := u.UnmarshalBinary(wantb); err != nil || u.IsEqual(&x) != 1 {
 				viol("wrong-value:"+n+".UnmarshalBinary", monTow, "x", sx, "err", err)
 			}
+			if i%4 == 0 {
+				towerRange(n, wantb, r, func(b []byte) error { v := y; return v.UnmarshalBinary(b) })
+			}
 			if i%8 == 0 {
 				if err := u.SetString(xa[0].Text(10), "0x"+xa[1].Text(16)); err != nil || u.IsEqual(&x) != 1 {
 					viol("wrong-value:"+n+".SetString", monTow, "x", sx, "err", err)
@@ -887,6 +915,9 @@ func TestVerifFFFp6(t *testing.T) {
 			if err := u.UnmarshalBinary(want); err != nil || u.IsEqual(x) != 1 {
 				viol("wrong-value:ff.Fp6.UnmarshalBinary", monTow, "x", sx, "err", err)
 			}
+			if i%4 == 0 {
+				towerRange("ff.Fp6", want, r, func(b []byte) error { v := *x; return v.UnmarshalBinary(b) })
+			}
 		})
 }
 
@@ -939,6 +970,7 @@ func TestVerifFFFp12(t *testing.T) {
 				if err := u.UnmarshalBinary(want); err != nil || u.IsEqual(x) != 1 {
 					viol("wrong-value:ff.Fp12.UnmarshalBinary", monTow, "x", sx, "err", err)
 				}
+				towerRange("ff.Fp12", want, r, func(b []byte) error { v := *x; return v.UnmarshalBinary(b) })
 			}
 			if i%8 == 1 {
 				e := bf.FromLE(r.EdgeBytes(1+r.Intn(6), 0))
